@@ -71,6 +71,8 @@ def gen_assign(rng, ntargets, counter):
     if rng.random() < 0.2:
         a['val'] = 'd%d' % rng.randrange(2)
     a['addr'] = rng.randrange(4)
+    if rng.random() < 0.5:
+        a['addr'] = 'a%d' % rng.randrange(2)     # an address wire the user holds, used again and again
     a['en'] = rng.choice([None, None, 'e0'])
     return a
 
@@ -121,6 +123,13 @@ def gen_program(rng, tier):
                          # a nested conditional_assignment(defaults=...) that is refused and caught
                          # inside the open block; its defaults mention a wire a later program uses
                          'caught': rng.random() < 0.5}
+    elif r < 0.38 and prog['defaults'] is not None and red is not None and not red[1] \
+            and not prog.get('catch_inside'):
+        # the block's own finalization is refused on the way out (its last statement asks for a
+        # second write port on a one-port memory); everything else it assigned is in force and
+        # its defaults are not the next block's
+        prog['fault'] = {'kind': 'finalize_refused', 'at': 0}
+        prog['mention_only'] = True
     return prog
 
 
@@ -173,7 +182,8 @@ def gen_case(streams, tier):
     for _ in range(ncyc):
         cycles.append({'p': [streams['inputs'].randrange(2) for _ in range(NPRED)],
                        'd': [streams['inputs'].randrange(256) for _ in range(2)],
-                       'e': streams['inputs'].randrange(2)})
+                       'e': streams['inputs'].randrange(2),
+                       'a': [streams['inputs'].randrange(4) for _ in range(2)]})
     return {'prop': ID, 'programs': progs, 'cycles': cycles,
             'exhaustive_preds': g.random() < 0.5,
             'sched': world.gen_sched(streams, with_iter=False, noise=False)}
@@ -342,6 +352,7 @@ class BlockCtx(object):
             self.preds = [pyrtl.Input(1, 'p%d' % i) for i in range(NPRED)]
             self.data = [pyrtl.Input(8, 'd%d' % i) for i in range(2)]
             self.en = pyrtl.Input(1, 'e0')
+            self.addrs = [pyrtl.Input(2, 'a%d' % i) for i in range(2)]
             self.wide = pyrtl.Input(2, 'widepred')
         self.programs = []         # (prog index, targets live, prog) for completed programs
         self.mentioned = []        # wires mentioned in defaults but not yet driven
@@ -476,10 +487,13 @@ def elaborate(prog, pi, ctx, res, share_next=None, shared=None):
                         elif kind == 'reg':
                             tgt.next |= val_of(it)
                         else:
+                            at = it['addr']
+                            if isinstance(at, str):
+                                at = ctx.addrs[int(at[1:])]
                             if it['en']:
-                                tgt[it['addr']] |= pyrtl.MemBlock.EnabledWrite(val_of(it), ctx.en)
+                                tgt[at] |= pyrtl.MemBlock.EnabledWrite(val_of(it), ctx.en)
                             else:
-                                tgt[it['addr']] |= val_of(it)
+                                tgt[at] |= val_of(it)
                     except pyrtl.PyrtlError:
                         if prog.get('catch_inside'):
                             state.setdefault('caught', []).append(me)
@@ -504,13 +518,23 @@ def elaborate(prog, pi, ctx, res, share_next=None, shared=None):
                             emit(it['body'])
 
         outcome = None
+        full = None
+        if fault and fault['kind'] == 'finalize_refused':
+            full = pyrtl.MemBlock(8, 2, name='g%d_full' % pi, max_write_ports=1, asynchronous=True)
+            full[0] <<= 1
         try:
             if defaults is not None:
                 with pyrtl.conditional_assignment(defaults=defaults):
                     emit(prog['tree'])
+                    if full is not None:
+                        with ctx.preds[0]:
+                            full[1] |= 2
             else:
                 with pyrtl.conditional_assignment:
                     emit(prog['tree'])
+                    if full is not None:
+                        with ctx.preds[0]:
+                            full[1] |= 2
             outcome = 'ok'
         except UserCodeError:
             outcome = 'user_exception'
@@ -553,19 +577,25 @@ def elaborate(prog, pi, ctx, res, share_next=None, shared=None):
                              {'program': pi, 'assignment': state['accepted_conflict']}, [])
         if outcome == 'pyrtl_error':
             at = state['rejected_at']
-            if at is None:
+            if at is None and full is not None:
+                res.faults.hit('finalization_refused_on_the_way_out')
+            elif at is None:
                 # raised by a with-statement: only the injected faults may do that
                 if fault and fault['kind'] in ('wide_predicate', 'nested') and stmt[0] >= fault['at']:
                     res.faults.hit(fault['kind'])
                     return ('aborted', fault['kind'])
                 return Violation('elaboration', 'unexpected_pyrtl_error',
                                  {'program': pi, 'exc': state.get('exc')}, [])
-            if rej and rej[0] == at:
+            elif rej and rej[0] == at:
                 res.faults.hit('rejected_' + rej[1])
                 return ('aborted', rej[1])
-            return Violation('conflict', 'conflict_free_assignment_rejected',
-                             {'program': pi, 'assignment': at, 'exc': state.get('exc'),
-                              'predicted': rej}, [])
+            else:
+                return Violation('conflict', 'conflict_free_assignment_rejected',
+                                 {'program': pi, 'assignment': at, 'exc': state.get('exc'),
+                                  'predicted': rej}, [])
+        elif full is not None and outcome == 'ok':
+            return Violation('elaboration', 'second_write_port_on_one_port_memory_accepted',
+                             {'program': pi}, [])
         if outcome == 'user_exception':
             # the exception left the whole block and was handled outside it: what had been
             # assigned before it is in force (the block is finalized on its way out), the design
@@ -648,7 +678,8 @@ def run(case, res):
         rng = random.Random(sched.get('hash_seed', 0))
         allv = [[(k >> i) & 1 for i in range(NPRED)] for k in range(1 << NPRED)]
         rng.shuffle(allv)
-        cycles = [{'p': v, 'd': [rng.randrange(256), rng.randrange(256)], 'e': rng.randrange(2)}
+        cycles = [{'p': v, 'd': [rng.randrange(256), rng.randrange(256)], 'e': rng.randrange(2),
+                   'a': [rng.randrange(4), rng.randrange(4)]}
                   for v in allv]
     for ctx in ctxs:
         if not ctx.healthy or not ctx.programs:
@@ -679,6 +710,8 @@ def run(case, res):
         for ci, cyc in enumerate(cycles):
             ins = {'p%d' % i: cyc['p'][i] for i in range(NPRED)}
             ins.update({'d0': cyc['d'][0], 'd1': cyc['d'][1], 'e0': cyc['e'], 'widepred': 0})
+            avals = cyc.get('a', [0, 0])
+            ins.update({'a0': avals[0], 'a1': avals[1]})
             sim.step(ins)
             res.cycles += 1
             written = {}           # id(MemBlock) -> addresses written this cycle
@@ -730,11 +763,14 @@ def run(case, res):
                             a = alist[0]
                             if a['en'] is None or cyc['e']:
                                 w_ = written.setdefault(id(live[ti]), set())
-                                if a['addr'] in w_:
+                                at = a['addr']
+                                if isinstance(at, str):
+                                    at = avals[int(at[1:])]
+                                if at in w_:
                                     # two ports write one word in one cycle: undefined from here
                                     memmodel[id(live[ti])][1] = True
-                                w_.add(a['addr'])
-                                model[(pi, ti)][a['addr']] = val(a)
+                                w_.add(at)
+                                model[(pi, ti)][at] = val(a)
             for mid, (content, tainted, (pi, ti, mobj)) in sorted(memmodel.items(),
                                                                  key=lambda kv: kv[1][2][:2]):
                 if tainted:
